@@ -47,11 +47,7 @@ for _n, _file in (("12", "mds_f64_12x12"), ("8", "mds_f64_8x8")):
           "on every unit vector scaled by a symbolic 32-bit factor the result is the corresponding column of the documented circulant MDS matrix (with linearity, which is not proved here, this is the matrix product)",
           bounded="one non-zero coordinate, every position; raw value symbolic 32-bit for 8x8 (thorough tier), 1 and 2^32-1 for 12x12",
           timeout=900, timeout_thorough=1800, tier="quick" if _n == "12" else "thorough"),
-    ] + ([
-        H("mds12_row%d_product_contract" % r, ["C11"], ["mds_f64_12x12::mds_multiply"],
-          "forall states of canonical elements: output row %d == sum_j MDS[%d][j] * state[j] mod M (reference: dot product with the documented circulant row, reduced independently)" % (r, r),
-          timeout=1800, timeout_thorough=3600, tier="thorough", cost=6)
-        for r in (0, 5, 11)] if _n == "12" else []) + [
+    ] + [
         H("mds%s_canary_must_fail" % _n, ["C11"], [], "false claim: second output is always 0", canary=True),
     ])
 
